@@ -32,6 +32,7 @@ func c07(c *Ctx) {
 	c07R8(c)
 	replayAllLinesRule(c, "R9")
 	replayVotesRule(c, "R10")
+	shared(c, "C06", c06R1)
 }
 
 func c07R1(c *Ctx) {
